@@ -6,6 +6,7 @@ import (
 	"fmt"
 	"math"
 	"math/rand/v2"
+	"reflect"
 	"unsafe"
 
 	"github.com/philpearl/avro"
@@ -51,6 +52,7 @@ func c17chunks(thorough bool) []c17chunk {
 		cs = append(cs, c17chunk{"varint-long-runs", k})
 	}
 	cs = append(cs, c17chunk{"varint-in-context", 0})
+	cs = append(cs, c17chunk{"float-records", 0})
 	return cs
 }
 
@@ -465,6 +467,95 @@ func c17widthPositions(c *core.Ctx, r *rand.Rand) int {
 	return n
 }
 
+// c17floatRecords: the float clauses inside records made of floats only (every sequence of 1-4 float32 /
+// float64 fields, all carried as doubles, and the same with float32 carried as float): the bytes are the
+// IEEE-754 little-endian values in schema order, and they read back bit-exactly.
+func c17floatRecords(c *core.Ctx, r *rand.Rand) int {
+	n := 0
+	f32, f64 := reflect.TypeOf(float32(0)), reflect.TypeOf(float64(0))
+	rb, wb := avro.NewReadBuf(nil), avro.NewWriteBuf(nil)
+	for length := 1; length <= 4; length++ {
+		for mask := 0; mask < 1<<length; mask++ {
+			for asFloat := 0; asFloat < 2; asFloat++ {
+				var fs []reflect.StructField
+				schema := `{"type":"record","name":"fr","fields":[`
+				for k := 0; k < length; k++ {
+					ft, st := f64, "double"
+					if mask>>k&1 == 1 {
+						ft = f32
+						if asFloat == 1 {
+							st = "float"
+						}
+					}
+					fs = append(fs, reflect.StructField{Name: fmt.Sprintf("F%d", k), Type: ft, Tag: reflect.StructTag(fmt.Sprintf(`json:"f%d"`, k))})
+					if k > 0 {
+						schema += ","
+					}
+					schema += fmt.Sprintf(`{"name":"f%d","type":"%s"}`, k, st)
+				}
+				schema += "]}"
+				rt := reflect.StructOf(fs)
+				ls, err := avro.SchemaFromString(schema)
+				var codec avro.Codec
+				if err == nil {
+					codec, err = ls.Codec(reflect.New(rt).Elem().Interface())
+				}
+				if err != nil {
+					c.Violate("float-record", fmt.Sprintf("codec refused for %s under %s: %v", rt, schema, err), nil)
+					return n
+				}
+				for rep := 0; rep < 200; rep++ {
+					v := reflect.New(rt).Elem()
+					var want []byte
+					for k := 0; k < length; k++ {
+						if mask>>k&1 == 1 {
+							x := math.Float32frombits(r.Uint32())
+							if rep%4 == 0 {
+								x = float32(r.NormFloat64())
+							}
+							*(*float32)(v.Field(k).Addr().UnsafePointer()) = x // exact bits (SetFloat would go through float64)
+							if asFloat == 1 {
+								want = binary.LittleEndian.AppendUint32(want, math.Float32bits(x))
+							} else {
+								want = binary.LittleEndian.AppendUint64(want, math.Float64bits(float64(x)))
+							}
+						} else {
+							x := math.Float64frombits(r.Uint64())
+							if rep%4 == 0 {
+								x = r.NormFloat64()
+							}
+							v.Field(k).SetFloat(x)
+							want = binary.LittleEndian.AppendUint64(want, math.Float64bits(x))
+						}
+					}
+					wb.Reset()
+					codec.Write(wb, v.Addr().UnsafePointer())
+					n++
+					// NaN payloads: float32 -> float64 conversion may quieten a signalling NaN; compare as the spec value of the
+					// converted number, which is what `want` holds
+					if !bytes.Equal(wb.Bytes(), want) {
+						c.Violate("float-record", fmt.Sprintf("%s under %s: value %v written as %x, specification says %x", rt, schema, v.Interface(), wb.Bytes(), want), nil)
+						return n
+					}
+					back := reflect.New(rt).Elem()
+					rb.Reset(want)
+					if err := codec.Read(rb, back.Addr().UnsafePointer()); err != nil {
+						c.Violate("float-record", fmt.Sprintf("%s under %s: reading %x failed: %v", rt, schema, want, err), nil)
+						return n
+					}
+					wb.Reset()
+					codec.Write(wb, back.Addr().UnsafePointer())
+					if !bytes.Equal(wb.Bytes(), want) || rb.Len() != 0 {
+						c.Violate("float-record", fmt.Sprintf("%s under %s: %x read back and written again is %x (left %d)", rt, schema, want, wb.Bytes(), rb.Len()), nil)
+						return n
+					}
+				}
+			}
+		}
+	}
+	return n
+}
+
 func last[T any](s []T) T {
 	var z T
 	if len(s) == 0 {
@@ -661,6 +752,10 @@ func runC17(c *core.Ctx, i int) {
 	case "varint-in-context":
 		n = int64(c17inContext(c))
 		c.Shape("varint-in-context")
+	case "float-records":
+		n = int64(c17floatRecords(c, r))
+		c.Count("float-record.checks", n)
+		c.Shape("float-records")
 	case "bool":
 		for _, v := range []bool{false, true} {
 			st.wb.Reset()
